@@ -947,6 +947,26 @@ fn open_and_walk(root: &Path) {
     // a database path that is a plain file, and one that does not exist
     let _ = PkgDB::open(&root.join("plainfile-1")).map(|db| db.count());
     let _ = PkgDB::open(&root.join("does-not-exist")).map(|db| db.count());
+    // the database goes away (or turns into a plain file) between open() and the iteration
+    for replace in [false, true] {
+        let gone = root.with_extension("going");
+        let _ = std::fs::remove_dir_all(&gone);
+        let _ = std::fs::remove_file(&gone);
+        if std::fs::create_dir_all(gone.join("pkg-1.0")).is_ok() {
+            for f in ["+COMMENT", "+CONTENTS", "+DESC"] {
+                let _ = std::fs::write(gone.join("pkg-1.0").join(f), b"x\n");
+            }
+            if let Ok(db) = PkgDB::open(&gone) {
+                let _ = std::fs::remove_dir_all(&gone);
+                if replace {
+                    let _ = std::fs::write(&gone, b"now a file");
+                }
+                let _ = db.count();
+            }
+        }
+        let _ = std::fs::remove_dir_all(&gone);
+        let _ = std::fs::remove_file(&gone);
+    }
 }
 
 fn check_db(t: &mut Tally, scratch: &Path, mask: u32) {
